@@ -27,62 +27,98 @@ func init() {
 
 // c16Events: provenance of the channel id of every events-handler call.
 func c16Events(r *R) {
-	type site struct {
-		fn *ssa.Function
-		ci ssa.CallInstruction
+	// Every call of the events handler made by the transport, judged on every path
+	// of the function that makes it (a helper introduced after the reference tree is
+	// walked through, so its sites are judged in its callers' terms).
+	type verdict struct {
+		site   ssa.Instruction
+		ok     bool
+		okText string
+		detail string
 	}
-	var sites []site
-	for _, fn := range r.p.Prod {
-		top := core.TopLevel(fn)
-		if top.Pkg != r.p.SSAByRel["transport/graphsync"] {
-			continue
+	by := map[string]*verdict{}
+	var keys []string
+	judge := func(fn *ssa.Function, pt *core.Path, ev core.Ev) {
+		ci, isCall := ev.Instr.(ssa.CallInstruction)
+		if !isCall {
+			return
 		}
-		for _, ci := range core.CallSites(fn) {
-			if strings.HasPrefix(r.p.CalleeName(ci.Common()), "(datatransfer.EventsHandler).") {
-				sites = append(sites, site{fn, ci})
+		name := r.p.CalleeName(ev.C)
+		key := r.siteKey(ci)
+		v := by[key]
+		if v == nil {
+			v = &verdict{site: ev.Instr, ok: true}
+			by[key] = v
+			keys = append(keys, key)
+		}
+		chid := pt.ArgDesc(ev, 0)
+		atoms := pt.AtomsBefore(ev.Instr)
+		fail := func(d string) {
+			if v.ok {
+				v.ok, v.detail = false, d
 			}
 		}
-	}
-	sort.Slice(sites, func(i, j int) bool { return r.siteKey(sites[i].ci) < r.siteKey(sites[j].ci) })
-	n := 0
-	for _, s := range sites {
-		name := r.p.CalleeName(s.ci.Common())
-		if name == "(datatransfer.EventsHandler).OnContextAugment" && false {
-			continue
-		}
-		n++
-		chid := r.d.Of(s.ci.Common().Args[0])
-		key := r.siteKey(s.ci)
-		site := r.p.InstrPos(s.ci)
-		atoms := r.p.AtomsAtInstr(s.ci)
 		switch {
 		case strings.HasPrefix(chid, "t.requestIDToChannelID.load(") && strings.HasSuffix(chid, "#0"):
 			load := strings.TrimSuffix(chid, "#0")
 			arg := strings.TrimSuffix(strings.TrimPrefix(load, "t.requestIDToChannelID.load("), ")")
 			okArg := arg == "request.ID()" || arg == "response.RequestID()"
-			r.c.Check(core.HasAtom(atoms, core.Atom{S: load + "#1", Pol: true}) && okArg, "C16.1", key, site, "channel looked up for the callback's own request id, and found",
-				fmt.Sprintf("%s is reported for %s without a successful lookup of the callback's own request id (facts: %s)", name, chid, strings.Join(core.AtomStrings(atoms), " ")))
-		case chid == "req.channelID":
-			r.c.OK("C16.1", key, site, "channel the graphsync request was opened for")
-		case chid == "chid" && core.ShortFn(s.fn) == "(*transport/graphsync.Transport).processExtension":
-			r.c.OK("C16.1", key, site, "channel id checked against the message and lifted to the callers (C05.2)")
-		case chid == "chid" && strings.HasPrefix(core.ShortFn(s.fn), "(*transport/graphsync.Transport).gsNetworkReceiveErrorListener$"):
-			ok := true
-			np := 0
-			for _, pt := range pathsThrough(r.pathsOf("C16.1", s.fn), s.ci) {
-				np++
-				if !(pt.HasBefore(s.ci, "+chid.Initiator==p") || pt.HasBefore(s.ci, "+chid.Responder==p")) {
-					ok = false
-				}
+			v.okText = "channel looked up for the callback's own request id, and found"
+			if !(core.HasAtom(atoms, core.Atom{S: load + "#1", Pol: true}) && okArg) {
+				fail(fmt.Sprintf("%s is reported for %s without a successful lookup of the callback's own request id (facts: %s)", name, chid, strings.Join(core.AtomStrings(atoms), " ")))
 			}
-			r.c.Check(ok && np > 0, "C16.1", key, site, "receive error reported only for channels with the affected peer", "a receive network error for peer p is reported on channels that do not involve p")
+		case chid == "req.channelID":
+			v.okText = "channel the graphsync request was opened for"
+		case chid == "chid" && core.ShortFn(fn) == "(*transport/graphsync.Transport).processExtension":
+			v.okText = "channel id checked against the message and lifted to the callers (C05.2)"
+		case chid == "chid" && strings.HasPrefix(core.ShortFn(fn), "(*transport/graphsync.Transport).gsNetworkReceiveErrorListener$"):
+			v.okText = "receive error reported only for channels with the affected peer"
+			if !(pt.HasBefore(ev.Instr, "+chid.Initiator==p") || pt.HasBefore(ev.Instr, "+chid.Responder==p")) {
+				fail("a receive network error for peer p is reported on channels that do not involve p")
+			}
 		case strings.HasPrefix(chid, "datatransfer.ChannelID{") || strings.HasPrefix(chid, "local:chid"):
 			// literal from the hook's peer (checked in detail by C05.1)
-			ok := strings.HasPrefix(chid, "local:chid") || strings.Contains(chid, "phi:") || (strings.Contains(chid, "t.peerID") && (strings.Contains(chid, ":p,") || strings.HasSuffix(chid, ":p}")))
-			r.c.Check(ok, "C16.1", key, site, "channel id built from the hook's peer and the local peer", name+" reported for "+chid)
+			v.okText = "channel id built from the hook's peer and the local peer"
+			if !(strings.HasPrefix(chid, "local:chid") || strings.Contains(chid, "phi:") || (strings.Contains(chid, "t.peerID") && (strings.Contains(chid, ":p,") || strings.HasSuffix(chid, ":p}")))) {
+				fail(name + " reported for " + chid)
+			}
 		default:
-			r.c.Bad("C16.1", key, site, fmt.Sprintf("%s is reported for channel %s, whose provenance is none of: request→channel lookup, hook-peer literal, opened gsReq, filtered map iteration", name, chid))
+			fail(fmt.Sprintf("%s is reported for channel %s, whose provenance is none of: request→channel lookup, hook-peer literal, opened gsReq, filtered map iteration", name, chid))
 		}
+	}
+	for _, fn := range r.p.Prod {
+		top := core.TopLevel(fn)
+		if top.Pkg != r.p.SSAByRel["transport/graphsync"] {
+			continue
+		}
+		if fn.Parent() == nil && core.IsNewFunc(fn) && len(r.p.Callers(core.ShortFn(fn))) > 0 {
+			continue // judged where it is called
+		}
+		has := false
+		for _, ci := range core.CallSites(fn) {
+			if strings.HasPrefix(r.p.CalleeName(ci.Common()), "(datatransfer.EventsHandler).") {
+				has = true
+			}
+			if sc := ci.Common().StaticCallee(); sc != nil && core.IsNewFunc(sc) {
+				has = true
+			}
+		}
+		if !has {
+			continue
+		}
+		for _, pt := range r.pathsOf("C16.1", fn) {
+			for _, ev := range pt.Evs {
+				if strings.HasPrefix(r.p.CalleeName(ev.C), "(datatransfer.EventsHandler).") {
+					judge(fn, pt, ev)
+				}
+			}
+		}
+	}
+	sort.Strings(keys)
+	n := len(keys)
+	for _, k := range keys {
+		v := by[k]
+		r.c.Check(v.ok, "C16.1", k, r.p.InstrPos(v.site), v.okText, v.detail)
 	}
 	r.c.Stats["events_handler_call_sites"] = n
 	r.c.Floor("C16.1", n, 15, "events-handler call sites in the graphsync transport")
